@@ -4,8 +4,8 @@ CONSTANTS
   ResKinds = {"ok"}
   Copies = 1
   FitsCov = {1, 1000001}
-  FitsMio = {1, 2, 1000000, 1000001}
-  FitsPop = {0, 1, 2, 1000001}
+  FitsMio = {1, 1000000, 1000001}
+  FitsPop = {1}
   MaxLenCov = 1
   MaxLenMio = 1
   Cap0 = 2
